@@ -74,36 +74,6 @@ func isStateAddr(v ssa.Value) bool {
 	return v != nil
 }
 
-// feasibleSuccs: successors of b when it was entered from pred; a block that branches
-// on a boolean phi of its own whose incoming value from pred is a constant takes only
-// the matching edge (prunes the infeasible paths short-circuit lowering creates).
-func feasibleSuccs(pred, b *ssa.BasicBlock) []*ssa.BasicBlock {
-	if pred == nil || len(b.Instrs) == 0 {
-		return b.Succs
-	}
-	ifi, ok := b.Instrs[len(b.Instrs)-1].(*ssa.If)
-	if !ok {
-		return b.Succs
-	}
-	f := normFact(ifi.Cond, true)
-	phi, ok := f.Cond.(*ssa.Phi)
-	if !ok || phi.Block() != b {
-		return b.Succs
-	}
-	for i, p := range b.Preds {
-		if p == pred {
-			if k, isC := constOf(phi.Edges[i]); isC && (k == "true" || k == "false") {
-				val := (k == "true") == f.Pol
-				if val {
-					return b.Succs[:1]
-				}
-				return b.Succs[1:2]
-			}
-		}
-	}
-	return b.Succs
-}
-
 // sameVersion: on every (phi-feasible) path from load l1 to instruction `at` that does not
 // re-execute l1, the local copy `a` is not written (a successful update counts as a write; a
 // failed one does not).
